@@ -220,10 +220,10 @@ LITERALS = [" ", "-", ":", "/", "T", "t", ", ", "Z", "year ", " at ", ".", "_",
 
 @st.composite
 def st_point(draw, cm, dyadic_ok=True, years=None):
-    years = years if years is not None else st.one_of(st.integers(1, 9998), st.integers(1000, 3000),
-                               st.sampled_from([1, 2, 99, 100, 999, 1000, 1969,
-                                                1970, 1971, 2000, 2008, 2009,
-                                                2015, 2020, 9998]))
+    years = years if years is not None else st.one_of(
+        st.integers(0, 9999), st.integers(1000, 3000),
+        st.sampled_from([0, 0, 1, 2, 99, 100, 999, 1000, 1969, 1970, 1971,
+                         2000, 2008, 2009, 2015, 2020, 9998, 9999, 9999]))
     dec = dyadic_ok and draw(st.sampled_from([False, False, False, True]))
     if dec:
         kw = draw(G.st_point_kw(cm, years=years, forms=("hms,tt", "hm,nn", "h,ii"),
@@ -232,7 +232,10 @@ def st_point(draw, cm, dyadic_ok=True, years=None):
         kw = draw(G.st_point_kw(cm, years=years, forms=("hms",)))
     civ_y = R.cal_from_dn(cm, M.kw_dn(cm, kw))[0]
     if not (0 <= kw["year"] <= 9999 and 0 <= civ_y <= 9999):
-        kw = draw(G.st_point_kw(cm, years=st.just(2000), forms=("hms",), reps="co"))
+        # week-year or 24:00/offset spill outside 0000-9999: same year, but
+        # spelled as a calendar/ordinal date (whose year is the civil year)
+        kw = draw(G.st_point_kw(cm, years=st.just(min(max(civ_y, 0), 9999)),
+                                forms=("hms",), reps="co"))
     kw["num_expanded_year_digits"] = draw(st.sampled_from([0, 0, 2]))
     return kw
 
@@ -273,7 +276,7 @@ def st_invert(draw, partial=False):
     if not partial and draw(st.integers(0, 5)) == 0:
         # %s alone: the library walks day by day from 1970
         kw = draw(st_point(cm, dyadic_ok=False, years=st.one_of(
-            st.integers(1200, 2800), st.sampled_from([1969, 1970, 1, 9998]))))
+            st.integers(1200, 2800), st.sampled_from([1969, 1970, 0, 1, 9999]))))
         fmt = draw(st.sampled_from(["%s", "%s", "@%s", "%s s", "t=%s;"]))
         return {"kind": "invert", "mode": mode, "p": kw, "fmt": fmt, "cfg": cfg}
     kw = draw(st_point(cm, dyadic_ok=False))
